@@ -49,8 +49,10 @@ CHECKS = {
   "text": "Lean theorems: the decoder's error names the method; any token list shorter than the fixed fields, any wrong marker, any "
           "non-integer / unknown mode / unknown platform in a typed fixed slot, odd list or map tails and partial table lists are rejected "
           "(for every token list, not only mutations); a rejected request makes no adapter call and no reply (closure level). Tied by the "
-          "malformed-stream differential (the real read_* raise only the protocol error naming the method). Server-level handling is "
-          "co-simulated (see DESIGN).",
+          "malformed-stream differential (the real read_* raise only the protocol error naming the method). Server part (Props/C09S): a "
+          "rejected request leaves the state unchanged and produces exactly one handler notification iff a handler is installed plus one "
+          "FAL for a Data server under default handling (c09_reported_once), and later lines are processed as if it had not been there "
+          "(c09_continues); tied by the reader-dispatch differential on the real on_received_request of both kinds.",
   "ref": "DESIGN.md §5 C09",
   "note": "trusted: Lean kernel; layouts hand-written; the decorator's catch-all is modelled and compared on every malformed input",
   "technique": "Lean 4 proof + malformed-stream differential correspondence"},
@@ -97,4 +99,22 @@ CHECKS = {
   "ref": "DESIGN.md §5 C16",
   "note": "trusted: Lean kernel; scheduler shim (Queue FIFO); one sendall = one contiguous line is the OS's",
   "technique": "Lean 4 proof + lock-step co-simulation"},
+ "C10": {
+  "text": "Lean theorems over the model of the (sequential) reader thread: c10_once (initialize at most once over any line sequence), "
+          "c10_initialize_only_first (only for an init request, only while awaited, slot consumed), c10_init_order (initialize, then "
+          "set_listener, then the reply), c10_work_after_init / c10_work_needs_earlier_init (no request reaches pool or subscription manager "
+          "before an init request was processed), c10_reject_before_init, c10_reject_second_init; tied by a sequential differential of the "
+          "real Server.on_received_request (both kinds) with recording stubs, the statements also evaluated on the real action log.",
+  "ref": "DESIGN.md §5 C10",
+  "note": "trusted: Lean kernel; Dispatch.lean hand-written, tied by differential; DESIGN I-1 (a malformed/refused first init consumes the slot)",
+  "technique": "Lean 4 proof (case analysis + induction over line sequences) + sequential differential of the real reader code"},
+ "C20": {
+  "text": "Lean theorems c20_close (honoured close request: exactly quit, pool shutdown, socket close; no handler), c20_ignored, c20_bad_id, "
+          "c20_io_failure (handler notified exactly once iff installed; exit iff absent or true), c20_read_after_close, "
+          "c20_closed_only_by_close over Dispatch.lean; tied by fault-injection co-simulation of both real servers under the scheduler (EOF / "
+          "reset at every inbound offset class, each write index up to 8, close requests by id and agreed version, close() twice, handler "
+          "absent/True/False/None, pool tasks in flight) and by the reader-dispatch differential.",
+  "ref": "DESIGN.md §5 C20",
+  "note": "trusted: Lean kernel; scheduler shim with scripted socket; os._exit substituted; real socket/exit semantics are the OS's",
+  "technique": "Lean 4 proof (case analysis) + fault-injection co-simulation + sequential differential"},
 }
